@@ -1,4 +1,5 @@
 import ImathVerif.Lemmas.C11Lemmas
+import Mathlib.Data.Finset.Card
 import ImathVerif.Lemmas.C11Analysis
 import Mathlib.Tactic.SplitIfs
 /-!
@@ -54,6 +55,71 @@ theorem setOrder_order (b : Bits) (h : b.initialAxis < 3) : setOrder (order b) =
 theorem code_injective : Function.Injective Ord.code := by
   intro a b h
   cases a <;> cases b <;> first | rfl | (exact absurd h (by decide))
+
+/-! `legal ()` accepts MORE than the 24 enumerators: `(order & ~Legal) == 0` with `Legal = 0x3111` holds for all 32 combinations of
+the five mask bits, i.e. also for the 8 patterns `0x3***` that set BOTH axis bits.  These are not enumerators of `Order`.  What the
+code does with them is well defined and harmless: `setOrder` tests bit `0x2000` first, so `0x3abc` is stored exactly like the Z-axis
+order `0x2abc` (`initialAxis = 2`, never 3) and `order ()` reads back `0x2abc`.  The property quantifies over "the 24 legal orders" —
+the enumerators — so this is recorded as a theorem about the code, not as a violation.  Scope: the 2^16 patterns that the
+correspondence of tools/props/c11.py pushes through the real `legal` (every other `int` has a bit above `0x3fff` and is rejected). -/
+
+/-- the non-enumerator patterns `legal ()` accepts -/
+def legalAliases : List Nat := [0x3000, 0x3001, 0x3010, 0x3011, 0x3100, 0x3101, 0x3110, 0x3111]
+
+/-- number of patterns below `n` that `legal` accepts (accumulator form, for the kernel) -/
+def legalCount : Nat → Nat → Nat
+  | 0, acc => acc
+  | n + 1, acc => legalCount n (if legal Gen.EulerOrder.Legal n then acc + 1 else acc)
+
+theorem legalCount_eq (n acc : Nat) :
+    legalCount n acc = acc + ((Finset.range n).filter (fun p => legal Gen.EulerOrder.Legal p = true)).card := by
+  induction n generalizing acc with
+  | zero => simp [legalCount]
+  | succ n ih =>
+    simp only [legalCount]
+    rw [ih, Finset.range_add_one, Finset.filter_insert]
+    split_ifs with h
+    · rw [Finset.card_insert_of_notMem (by simp)]; omega
+    · rfl
+
+/-- EXACTLY which of the 65,536 bit patterns `legal ()` accepts: the 24 enumerators and the 8 aliases `0x3***`, nothing else
+    (kernel count of the accepted patterns = 32 = number of distinct listed patterns, all of which are accepted) -/
+theorem legal_iff (p : Nat) (hp : p < 65536) :
+    legal Gen.EulerOrder.Legal p = true ↔ p ∈ Ord.all.map Ord.code ++ legalAliases := by
+  have hc : ((Finset.range 65536).filter (fun p => legal Gen.EulerOrder.Legal p = true)).card = 32 := by
+    have h := legalCount_eq 65536 0
+    rw [show legalCount 65536 0 = 32 by decide +kernel] at h
+    omega
+  have hnd : (Ord.all.map Ord.code ++ legalAliases).Nodup := by decide
+  have hlen : (Ord.all.map Ord.code ++ legalAliases).length = 32 := by decide
+  have hsub : (Ord.all.map Ord.code ++ legalAliases).toFinset ⊆ (Finset.range 65536).filter (fun p => legal Gen.EulerOrder.Legal p = true) := by
+    intro q hq
+    rw [List.mem_toFinset] at hq
+    have : ∀ q ∈ Ord.all.map Ord.code ++ legalAliases, q < 65536 ∧ legal Gen.EulerOrder.Legal q = true := by decide
+    simp only [Finset.mem_filter, Finset.mem_range]
+    exact this q hq
+  have heq := Finset.eq_of_subset_of_card_le hsub (by rw [hc, List.toFinset_card_of_nodup hnd, hlen])
+  constructor
+  · intro h
+    have : p ∈ (Finset.range 65536).filter (fun p => legal Gen.EulerOrder.Legal p = true) := by
+      simp only [Finset.mem_filter, Finset.mem_range]; exact ⟨hp, h⟩
+    rw [← heq, List.mem_toFinset] at this
+    exact this
+  · intro h
+    have : p ∈ (Ord.all.map Ord.code ++ legalAliases).toFinset := List.mem_toFinset.mpr h
+    rw [heq] at this
+    simp only [Finset.mem_filter, Finset.mem_range] at this
+    exact this.2
+/-- the 24 enumerators and the 8 aliases are 32 distinct patterns -/
+theorem legal_patterns_distinct :
+    (Ord.all.map Ord.code ++ legalAliases).Nodup ∧ (Ord.all.map Ord.code ++ legalAliases).length = 32 := by decide
+
+/-- what the code does on an alias `0x3abc`: exactly what it does on the Z-axis enumerator `0x2abc` — same bit fields
+    (`initialAxis = 2`, not 3), and `order ()` returns `0x2abc`; in particular `order (setOrder p) ≠ p` for the aliases -/
+theorem legal_aliases_behave (p : Nat) (hp : p ∈ legalAliases) :
+    setOrder p = setOrder (p - 0x1000) ∧ order (setOrder p) = p - 0x1000 ∧ (p - 0x1000) ∈ Ord.all.map Ord.code
+    ∧ (setOrder p).initialAxis = 2 ∧ order (setOrder p) ≠ p := by
+  revert p; decide
 
 /-- T-route cross-check: the REAL `order()`, `legal()`, `frameStatic()`, `initialRepeated()`,
     `parityEven()`, `initialAxis()` evaluated by the extractor on `Euler<T> e (O)` for each of the 24
@@ -263,6 +329,16 @@ theorem reorder_ctor_eq {α : Type} [Field α] (o : Ord) (sqrt sin cos : α → 
     reorderFromXYZ o sqrt sin cos atan2 a = (exM33 o sqrt sin cos atan2 (toM33 .XYZ sin cos a), (o.code : Int))
     ∧ reorderToZYXr o sqrt sin cos atan2 a = (exM33 .ZYXr sqrt sin cos atan2 (toM33 o sin cos a), (Ord.ZYXr.code : Int)) := by
   cases o <;> (unfold_reorderFromXYZ; unfold_reorderToZYXr; unfold_exM33; unfold_toM33; exact ⟨rfl, rfl⟩)
+
+set_option maxHeartbeats 4000000 in
+/-- the same identity for two further pairs whose source is not XYZ and whose target is not ZYXr (YXYr → XZX: rotating repeated →
+    static repeated; ZXY → YZXr: static → rotating): the constructor's body does not depend on either order -/
+theorem reorder_ctor_eq_other_pairs {α : Type} [Field α] (sqrt sin cos : α → α) (atan2 : α → α → α) (a : V3 α) :
+    Gen.Euler.reorder_YXYr_XZX sqrt sin cos atan2 a = (exM33 .XZX sqrt sin cos atan2 (toM33 .YXYr sin cos a), (Ord.XZX.code : Int))
+    ∧ Gen.Euler.reorder_ZXY_YZXr sqrt sin cos atan2 a = (exM33 .YZXr sqrt sin cos atan2 (toM33 .ZXY sin cos a), (Ord.YZXr.code : Int)) := by
+  simp only [Gen.Euler.reorder_YXYr_XZX, Gen.Euler.reorder_ZXY_YZXr]
+  unfold_exM33; unfold_toM33
+  exact ⟨rfl, rfl⟩
 
 /-! ## 5. `(π+x, π−y, π+z)`, simpleXYZRotation, nearestRotation, makeNear
 
@@ -716,8 +792,10 @@ theorem nonvacuity_makeNear (a t : V3 ℝ) :
 /-- `float (M_PI)`, exactly: the bound the REAL (float-returning) `angleMod` satisfies; it is larger than the double `M_PI` -/
 def piF {α : Type} [Div α] [OfNat α 13176795] [OfNat α 4194304] : α := (13176795 : α) / (4194304 : α)
 
-/-- the `_within` theorems are not vacuous at the honest float bound: the exact model with `pi := float (M_PI)` (which is what
-    `Euler<float>::angleMod` computes — `fmod` and, by Sterbenz, the two wrap steps are exact in `float`) stays within `piF`,
+/-- the `_within` theorems are not vacuous at the honest float bound: the exact model with `pi := float (M_PI)` stays within `piF`
+    (paper remark, not a checked claim: for `T = float` `fmod` and, by Sterbenz, the two wrap steps are exact, so the code should
+    compute exactly this model; what IS checked on all 2^32 arguments is `|r| ≤ piF` and exact congruence, which fix `r` up to the
+    choice between `+piF` and `−piF` at the boundary),
     and `piF` exceeds the double `M_PI` by ≈ 8.7e-8, so the `mpi` version of the bound does NOT apply to it -/
 theorem nonvacuity_float_bound (a t : V3 ℝ) :
     (mpi : ℝ) < piF ∧ (∀ d : ℝ, |Model.Euler.angleMod truncF (piF : ℝ) d| ≤ piF)
